@@ -206,10 +206,17 @@ class Node(ImmittanceMixin):
             raise RuntimeError(
                 'Removing node %s with no connections' % str(self))
 
+        # Prefer the component itself; a component with the same name
+        # may be connected while it is being overridden.
         for c in self._connected:
-            if c.name == cpt.name:
+            if c is cpt:
                 self._connected.remove(c)
                 break
+        else:
+            for c in self._connected:
+                if c.name == cpt.name:
+                    self._connected.remove(c)
+                    break
         if cpt.type not in ('A', 'O'):
             self._count -= 1
 
